@@ -1,4 +1,172 @@
-import CTM.Model.Election
+/-
+  C02 — assignments are the plurality of bootstrapped nearest-centroid votes.
+
+  Theorems about the executable model (CTM/Model/Numeric.lean,
+  CTM/Model/Election.lean) for ALL inputs.  Helper lemmas live in
+  CTM/Lemmas/Election.lean.  What ties the model to /repo is the
+  correspondence suite harness/props/c02.py.
+-/
+import CTM.Lemmas.Election
+
 namespace CTM.C02
-theorem placeholder_true : True := trivial
+open CTM.Numeric CTM.Election
+
+/-- "each bootstrap iteration uses a ... subset, of size max(1, round(factor x n)),
+    of the n marker genes": the model's size is `max 1 (roundHalfEven p)` where
+    `roundHalfEven p` is a nearest integer to the (float) product `p`, the even one
+    on a tie (numpy rounds half to even). -/
+theorem bootstrap_size (p : Rat) (n : Nat) (hn : 0 < n) :
+    bootstrapSize p n = max (roundHalfEven p) 1 ∧
+    |((roundHalfEven p : Int) : Rat) - p| ≤ 1 / 2 ∧
+    (|((roundHalfEven p : Int) : Rat) - p| = 1 / 2 → roundHalfEven p % 2 = 0) := by
+  refine ⟨by simp [bootstrapSize, hn], roundHalfEven_spec p⟩
+
+example : bootstrapSize (5 / 2) 5 = 2 ∧ bootstrapSize (7 / 2) 7 = 4 ∧ bootstrapSize (1 / 100) 9 = 1 := by
+  decide +kernel
+
+/-- "all bootstrap factors in (0,1]": when the product does not exceed the
+    number of markers, `rng.choice` does not raise and every subset has between 1
+    and n elements. -/
+theorem draw_size_ok (p : Rat) (n : Nat) (hn : 0 < n) (hp : p ≤ (n : Rat)) :
+    ∃ k : Nat, drawSize p n = .ok k ∧ 1 ≤ k ∧ k ≤ n ∧ (k : Int) = bootstrapSize p n := by
+  have h1 : bootstrapSize p n = max (roundHalfEven p) 1 := by simp [bootstrapSize, hn]
+  have h2 := roundHalfEven_le_of_le_nat p n hp
+  have hge : 1 ≤ bootstrapSize p n := by rw [h1]; exact le_max_right _ _
+  have hle : bootstrapSize p n ≤ (n : Int) := by rw [h1]; exact max_le h2 (by omega)
+  refine ⟨(bootstrapSize p n).toNat, ?_, by omega, by omega, by omega⟩
+  unfold drawSize
+  simp only
+  rw [if_neg (by omega), if_neg (by omega)]
+
+example : drawSize (9 / 2) 9 = .ok 4 := by decide +kernel
+
+/-- "casts one vote for the child that contains the leaf cluster whose mean
+    ... profile has the highest Pearson correlation with the cell's ... profile
+    over that subset, considering only leaves below the node": an iteration that
+    does not raise returns the index `i` of a reference row (the rows are the
+    leaves below the node) whose signed squared correlation with the cell over the
+    subset is maximal, the first such (numpy.argmax); the vote goes to `types[i]`
+    through `tallyCell` / `aggregateVotes`. -/
+theorem vote_is_argmax (refs : List (List Rat)) (x : List Rat) (s : List Nat) (i : Nat) (q : Rat)
+    (h : tallyIter refs x s = .ok (i, q)) :
+    ∃ hi : i < refs.length,
+      q = corrSsq (pick s refs[i]) (pick s x) ∧
+      (∀ (j : Nat) (hj : j < refs.length), corrSsq (pick s refs[j]) (pick s x) ≤ q) ∧
+      (∀ (j : Nat) (hj : j < refs.length), j < i → corrSsq (pick s refs[j]) (pick s x) < q) := by
+  unfold tallyIter at h
+  split at h
+  · cases h
+  · split at h
+    · cases h
+    · next r hr =>
+      cases h
+      obtain ⟨hi, hs, hmax, hfirst⟩ := nearestLeaf_spec _ _ _ _ hr
+      have hi' : i < refs.length := by rw [List.length_map] at hi; exact hi
+      refine ⟨hi', ?_, ?_, ?_⟩
+      · rw [List.getElem_map] at hs; exact hs
+      · intro j hj
+        have := hmax j (by rw [List.length_map]; exact hj)
+        rw [List.getElem_map] at this; exact this
+      · intro j hj hlt
+        have := hfirst j (by rw [List.length_map]; exact hj) hlt
+        rw [List.getElem_map] at this; exact this
+
+example : tallyIter [[1, 2, 4], [3, 1, 2], [1, 1, 1]] [1, 2, 5] [0, 1, 2] = .ok (0, 361 / 364) := by
+  decide +kernel
+
+/-- the arg-max is "decided without square roots": for numbers `r`, `r'` whose
+    signed squares are the two scores (i.e. the Pearson correlations themselves),
+    comparing the scores compares the correlations. -/
+theorem signed_square_decides (r r' s s' : Rat) (hr : r * |r| = s) (hr' : r' * |r'| = s') :
+    (s < s' ↔ r < r') ∧ (s ≤ s' ↔ r ≤ r') := by
+  subst hr hr'
+  refine ⟨signed_square_lt_iff r r', ?_⟩
+  rw [← not_lt, ← not_lt, signed_square_lt_iff]
+
+example : ((1 : Rat) / 2) * |(1 : Rat) / 2| = 1 / 4 := by norm_num [abs_of_pos]
+
+/-- constant rows ("norm := 1"): a row that is constant over the subset has
+    correlation 0 with every row. -/
+theorem constant_row_scores_zero (m x : List Rat) :
+    (var x = 0 → corrSsq m x = 0) ∧ (var m = 0 → corrSsq m x = 0) :=
+  ⟨corrSsq_const_right m x, corrSsq_const_left m x⟩
+
+example : var [2, 2, 2] = 0 ∧ corrSsq [1, 2, 3] [2, 2, 2] = 0 := by decide +kernel
+
+/-- `tally_votes`: the vote array counts, per leaf, the iterations whose nearest
+    neighbour was that leaf; the correlation array sums the winning correlations
+    of exactly those iterations; every iteration casts exactly one vote. -/
+theorem tally_counts (n : Nat) (rows : List (Nat × Rat)) :
+    (tallyCell n rows).1 = (List.range n).map (countLeaf rows) ∧
+    (tallyCell n rows).2 = (List.range n).map (corrOfLeaf rows) ∧
+    ((∀ r ∈ rows, r.1 < n) → (tallyCell n rows).1.sum = rows.length) :=
+  ⟨tallyCell_votes n rows, tallyCell_corr n rows, tallyCell_sum n rows⟩
+
+example : tallyCell 3 [(0, 1 / 2), (2, 1 / 4), (0, 1)] = ([2, 0, 1], [3 / 2, 0, 1 / 4]) := by
+  decide +kernel
+
+/-- "leaf votes summed into the child that owns the leaf": the aggregated types
+    are the distinct children in increasing order; the entry of a child is the sum
+    over exactly its leaves; no vote (and no correlation) is lost or counted
+    twice.  For any leaf -> child map `types`. -/
+theorem aggregate_sound (types votes : List Nat) (corr : List Rat) :
+    (aggregateVotes types votes corr).2.2.Pairwise (· < ·) ∧
+    (∀ t, t ∈ (aggregateVotes types votes corr).2.2 ↔ t ∈ types) ∧
+    (aggregateVotes types votes corr).1 = (uniqSorted types).map (fun t =>
+      (((List.range types.length).filter (fun i => types.getD i 0 == t)).map
+        (fun i => votes.getD i 0)).sum) ∧
+    (votes.length = types.length → (aggregateVotes types votes corr).1.sum = votes.sum) ∧
+    (corr.length = types.length → (aggregateVotes types votes corr).2.1.sum = corr.sum) :=
+  ⟨sorted_uniqSorted types, fun t => mem_uniqSorted t types, rfl,
+   aggregateVotes_sum types votes corr, aggregateVotes_corr_sum types votes corr⟩
+
+example : aggregateVotes [7, 5, 7] [2, 0, 1] [3 / 2, 0, 1 / 4] = ([0, 3], [0, 7 / 4], [5, 7]) := by
+  decide +kernel
+
+/-- "The reported assignment is a child with the most votes, its bootstrapping
+    probability is its share of the votes, its average correlation is the mean
+    winning correlation over the iterations that voted for it" — for ANY tie
+    order numpy's argsort may have produced. `cols` are the columns `choose_node`
+    works on (aggregated iff a type repeats). -/
+theorem plurality (types votes : List Nat) (corr : List Rat) (iters nAssign : Nat)
+    (order : List Nat) (ch : Choice)
+    (hv : ValidOrder (columns types votes corr).1 order)
+    (h : chooseCell types votes corr iters nAssign order = .ok ch) :
+    ∃ w, w < (columns types votes corr).1.length ∧
+      ch.winner = (columns types votes corr).2.2.getD w 0 ∧
+      (∀ i, i < (columns types votes corr).1.length →
+        (columns types votes corr).1.getD i 0 ≤ (columns types votes corr).1.getD w 0) ∧
+      ch.prob = ((columns types votes corr).1.getD w 0 : Rat) / (iters : Rat) ∧
+      (0 < (columns types votes corr).1.getD w 0 →
+        ch.avgCorr = (columns types votes corr).2.1.getD w 0 /
+          ((columns types votes corr).1.getD w 0 : Rat)) :=
+  chooseCols_winner hv h
+
+example : chooseCell [7, 5, 7] [2, 0, 1] [3 / 2, 0, 1 / 4] 3 3 [1, 0] =
+    .ok { winner := 7, prob := 1, avgCorr := 7 / 12,
+          runners := [{ type := 5, valid := false, avgCorr := 0, prob := 0 }] } := by
+  decide +kernel
+
+/-- "the runners-up are the remaining vote-getting children in order of
+    decreasing share": every other child that received votes is listed, unless
+    the list was truncated to `nAssign - 1` entries, in which case it has no more
+    votes than any listed runner-up (order and positivity of the listed ones:
+    `C03.runners`). -/
+theorem runners_are_the_rest (types votes : List Nat) (corr : List Rat) (iters nAssign : Nat)
+    (order : List Nat) (ch : Choice)
+    (hv : ValidOrder (columns types votes corr).1 order)
+    (h : chooseCell types votes corr iters nAssign order = .ok ch)
+    (i : Nat) (hi : i < (columns types votes corr).1.length)
+    (hne : (columns types votes corr).2.2.getD i 0 ≠ ch.winner)
+    (hpos : 0 < (columns types votes corr).1.getD i 0) :
+    (columns types votes corr).2.2.getD i 0 ∈ (keepRunners ch.runners).1 ∨
+    (nAssign < (columns types votes corr).1.length ∧
+      ∀ p ∈ (keepRunners ch.runners).2.2,
+        ((columns types votes corr).1.getD i 0 : Rat) / (iters : Rat) ≤ p) :=
+  chooseCols_runners_complete hv h i hi hne hpos
+
+example : keepRunners [{ type := 5, valid := false, avgCorr := 0, prob := 0 },
+    { type := 6, valid := true, avgCorr := 1 / 2, prob := 1 / 3 }] = ([6], [1 / 2], [1 / 3]) := by
+  decide +kernel
+
 end CTM.C02
